@@ -181,7 +181,7 @@ int main(int argc, char** argv)
                 last = p;
                 last_change = clk::now();
             }
-            else if (clk::now() - last_change > std::chrono::seconds(5))
+            else if (clk::now() - last_change > std::chrono::seconds(12))
             {
                 vpika::log_quiescent();
                 for (int t = 0; t < ntargets; ++t)
